@@ -23,7 +23,7 @@ type c15Val struct {
 }
 
 type c15Expr struct {
-	E    string    `json:"e"` // lit call get
+	E    string    `json:"e"` // lit call get miss
 	V    *c15Val   `json:"v,omitempty"`
 	M    string    `json:"m,omitempty"`
 	A    string    `json:"a,omitempty"`
@@ -32,7 +32,7 @@ type c15Expr struct {
 }
 
 type c15Stmt struct {
-	Op string   `json:"op"` // expr set
+	Op string   `json:"op"` // expr set inc
 	X  *c15Expr `json:"x,omitempty"`
 	A  string   `json:"a,omitempty"`
 	I  int      `json:"i"`
@@ -46,6 +46,8 @@ func (e c15Expr) MarshalJSON() ([]byte, error) {
 		return json.Marshal(map[string]any{"e": "lit", "v": e.V.tla()})
 	case "get":
 		return json.Marshal(map[string]any{"e": "get", "a": e.A, "i": e.I})
+	case "miss":
+		return json.Marshal(map[string]any{"e": "miss"})
 	}
 	args := e.Args
 	if args == nil {
@@ -57,6 +59,9 @@ func (e c15Expr) MarshalJSON() ([]byte, error) {
 func (s c15Stmt) MarshalJSON() ([]byte, error) {
 	if s.Op == "set" {
 		return json.Marshal(map[string]any{"op": "set", "a": s.A, "i": s.I, "v": s.V.tla()})
+	}
+	if s.Op == "inc" {
+		return json.Marshal(map[string]any{"op": "inc", "a": s.A, "i": s.I})
 	}
 	return json.Marshal(map[string]any{"op": "expr", "x": s.X})
 }
@@ -90,12 +95,19 @@ var c15Names = [3][3]string{{"a", "b", "c"}, {"$.a", "$.b", "$.c"}, {"o.p", "q[0
 
 func c15Name(pl int, a string) string { return c15Names[pl][int(a[0]-'a')] }
 
+// an object {k: 1} lives next to the arrays; m.nope reads a member it does not have
+var c15ObjNames = [3]string{"m", "$.m", "u.m"}
+
+const c15ObjText = "{\"k\": 1}"
+
 func (e *c15Expr) src(pl int) string {
 	switch e.E {
 	case "lit":
 		return e.V.src()
 	case "get":
 		return c15Name(pl, e.A) + "[" + strconv.Itoa(e.I) + "]"
+	case "miss":
+		return c15ObjNames[pl] + ".nope"
 	}
 	args := []string{}
 	for i := range e.Args {
@@ -123,16 +135,19 @@ func c15Program(init [3][]c15Val, ops []c15Stmt, pl, narr int, full bool) (prog 
 		for k := 0; k < 3; k++ {
 			sb.WriteString(c15Names[0][k] + " = " + c15ArrSrc(init[k]) + "\n")
 		}
+		sb.WriteString("m = {k: 1}\n")
 	case 1:
-		input = "{\"a\": " + c15ArrSrc(init[0]) + ", \"b\": " + c15ArrSrc(init[1]) + ", \"c\": " + c15ArrSrc(init[2]) + ", \"n\": 5}"
+		input = "{\"a\": " + c15ArrSrc(init[0]) + ", \"b\": " + c15ArrSrc(init[1]) + ", \"c\": " + c15ArrSrc(init[2]) + ", \"m\": {\"k\": 1}, \"n\": 5}"
 	case 2:
-		sb.WriteString("o = {p: " + c15ArrSrc(init[0]) + "}\nq = [" + c15ArrSrc(init[1]) + ", 0]\nw = {z: {y: " + c15ArrSrc(init[2]) + "}}\n")
+		sb.WriteString("o = {p: " + c15ArrSrc(init[0]) + "}\nq = [" + c15ArrSrc(init[1]) + ", 0]\nw = {z: {y: " + c15ArrSrc(init[2]) + "}}\nu = {m: {k: 1}}\n")
 	}
 	tags := []string{"A", "B", "C"}
 	for i := range ops {
 		op := &ops[i]
 		if op.Op == "set" {
 			sb.WriteString(c15Name(pl, op.A) + "[" + strconv.Itoa(op.I) + "] = " + op.V.src() + "\n")
+		} else if op.Op == "inc" {
+			sb.WriteString("print \"R\", [++" + c15Name(pl, op.A) + "[" + strconv.Itoa(op.I) + "]]\n")
 		} else {
 			// wrapped in an array literal: a string result is then printed quoted ("10" vs 10)
 			sb.WriteString("print \"R\", [" + op.X.src(pl) + "]\n")
@@ -141,6 +156,7 @@ func c15Program(init [3][]c15Val, ops []c15Stmt, pl, narr int, full bool) (prog 
 			for k := 0; k < narr; k++ {
 				sb.WriteString("print \"" + tags[k] + "\", " + c15Names[pl][k] + "\n")
 			}
+			sb.WriteString("print \"M\", " + c15ObjNames[pl] + "\n")
 		}
 		ls := []string{}
 		for k := 0; k < narr; k++ {
@@ -152,6 +168,7 @@ func c15Program(init [3][]c15Val, ops []c15Stmt, pl, narr int, full bool) (prog 
 		for k := 0; k < narr; k++ {
 			sb.WriteString("print \"" + tags[k] + "\", " + c15Names[pl][k] + "\n")
 		}
+		sb.WriteString("print \"M\", " + c15ObjNames[pl] + "\n")
 	}
 	sb.WriteString("}\n")
 	return sb.String(), input
@@ -211,14 +228,14 @@ func c15Match(v *c15Vec, dev bool, class string, lines []string, narr int, wild 
 			}
 			return true, ""
 		}
-		if v.Ops[i].Op == "expr" {
+		if v.Ops[i].Op != "set" {
 			got, ok := next("R")
 			if !ok {
 				return false, fmt.Sprintf("step %d: no result line (run ended %s; next line %q)", i+1, class, got)
 			}
 			exp := &c09T{K: "arr", A: []*c09T{c09FromCompact(e.Res)}}
 			if g := c09ParsePrint(got); !c09Equal(exp, g, false) {
-				return false, fmt.Sprintf("step %d: result of [%s]: expected %s, got %s", i+1, v.Ops[i].X.src(0), exp, g)
+				return false, fmt.Sprintf("step %d: result: expected %s, got %s", i+1, exp, g)
 			}
 		}
 		for k := 0; k < narr; k++ {
@@ -230,6 +247,9 @@ func c15Match(v *c15Vec, dev bool, class string, lines []string, narr int, wild 
 			if g := c09ParsePrint(got); !c09Equal(exp, g, false) {
 				return false, fmt.Sprintf("step %d: contents of %s: expected %s, got %s", i+1, c15Names[0][k], exp, g)
 			}
+		}
+		if got, ok := next("M"); !ok || got != c15ObjText {
+			return false, fmt.Sprintf("step %d: the object the missing member was read from: expected %s, got %q", i+1, c15ObjText, got)
 		}
 		got, ok := next("L")
 		if !ok {
@@ -358,6 +378,7 @@ type c15Hist struct {
 }
 
 type c15Gen struct {
+	next *c15Stmt // queued follow-up statement
 	r    *rand.Rand
 	lens [3]int
 	cont [3]bool // may hold a container
@@ -397,6 +418,11 @@ func c15Call(m string, k int, args ...c15Expr) c15Expr {
 // stmt generates one statement and updates the generator's idea of the
 // lengths (a heuristic to keep arrays short and indices in range; not an oracle).
 func (g *c15Gen) stmt() c15Stmt {
+	if g.next != nil {
+		st := *g.next
+		g.next = nil
+		return st
+	}
 	x := g.arr()
 	y := g.arr()
 	name := func(k int) string { return string(rune('a' + k)) }
@@ -410,9 +436,26 @@ func (g *c15Gen) stmt() c15Stmt {
 		w = 300 + g.r.Intn(250) // drain
 	}
 	switch {
-	case w < 300:
+	case w < 270:
 		g.lens[x]++
 		return c15Stmt{Op: "expr", X: ptr(c15Call("push", x, c15Lit(g.val())))}
+	case w < 300:
+		// push the null of a read past the end (of any array) or of a missing member; often followed
+		// by a write to exactly that element, which must change that element and nothing else
+		arg := c15Expr{E: "miss"}
+		if w < 288 {
+			arg = c15Expr{E: "get", A: name(y), I: g.lens[y] + g.r.Intn(4)}
+		}
+		g.lens[x]++
+		switch g.r.Intn(4) {
+		case 0:
+			g.next = &c15Stmt{Op: "set", A: name(x), I: -1, V: g.val()}
+		case 1:
+			g.next = &c15Stmt{Op: "inc", A: name(x), I: g.lens[x] - 1}
+		case 2:
+			g.next = &c15Stmt{Op: "inc", A: name(x), I: -1}
+		}
+		return c15Stmt{Op: "expr", X: ptr(c15Call("push", x, arg))}
 	case w < 450:
 		pop(x)
 		return c15Stmt{Op: "expr", X: ptr(c15Call("popfirst", x))}
@@ -440,6 +483,11 @@ func (g *c15Gen) stmt() c15Stmt {
 			i = -(g.lens[x] + 1 + g.r.Intn(2)) // before the start: the run must end with an error
 		}
 		return c15Stmt{Op: "expr", X: &c15Expr{E: "get", A: name(x), I: i}}
+	case w < 805:
+		if g.lens[x] == 0 || g.cont[x] {
+			return c15Stmt{Op: "expr", X: ptr(c15Call("length", x))}
+		}
+		return c15Stmt{Op: "inc", A: name(x), I: g.idx(x)}
 	case w < 860:
 		i := g.idx(x)
 		if g.lens[x] == 0 || g.r.Intn(4) == 0 {
@@ -539,7 +587,7 @@ func c15Events(h *c15Hist, narr int, r Result) ([]string, error) {
 	for i := range h.ops {
 		op := &h.ops[i]
 		res := map[string]any{"t": "null"}
-		if op.Op == "expr" {
+		if op.Op != "set" {
 			if li >= len(lines) {
 				break
 			}
@@ -554,7 +602,7 @@ func c15Events(h *c15Hist, narr int, r Result) ([]string, error) {
 			li++
 		}
 		if li >= len(lines) {
-			if op.Op == "expr" {
+			if op.Op != "set" {
 				return nil, fmt.Errorf("statement %d: result line without length line", i+1)
 			}
 			break
@@ -599,6 +647,10 @@ func c15Events(h *c15Hist, narr int, r Result) ([]string, error) {
 				}
 			}
 			add(map[string]any{"ev": "final", "arrs": fin})
+			if li >= len(lines) || lines[li] != "M "+c15ObjText {
+				return nil, fmt.Errorf("the object whose missing member was read is not %s at the end", c15ObjText)
+			}
+			li++
 			if li != len(lines) {
 				return nil, fmt.Errorf("extra output %q", lines[li])
 			}
@@ -758,7 +810,7 @@ func c15Tail(b []byte) string {
 
 func checkC15(c *Ctx) {
 	c.Assume("operations are applied through the name that holds the array; what a stored COPY of an array shows after the array's length changed is C09's alias question (alias-length) and is not compared")
-	c.Assume("an index read past the end is C09's matter and is not generated; sort of an array that holds containers (string form of a container) and an array pushed into itself are not fixed by the statement and are not generated")
+	c.Assume("sort of an array that holds containers (string form of a container), an array pushed into itself, ++ of an element that is a container and ++ of an index past the end (creation: C09) are not fixed by the statement and are not generated; an index read past the end and a read of a missing object member are null and change nothing, also as arguments of push")
 	c.Assume("element values: small integers, short strings, null, true; numeric strings only \"10\"; argument-count errors are not exercised")
 	c.Assume("arrays live in variables (a, b, c), in fields of the input document ($.a, $.b, $.c) and inside other containers (o.p, q[0], w.z.y); every history runs in all three placements")
 	pool := c.Pool()
@@ -773,7 +825,7 @@ func checkC15(c *Ctx) {
 	c15RunMC(c, pool, "breadth", c15Cfg("breadth", breadth), nil, 2, stats, tags)
 	c15Traces(c, pool)
 	for _, t := range []string{"law:push", "law:pop", "law:popfirst", "law:length", "law:poppush", "law:fifo", "law:sort", "law:sortstable", "law:sortnumeric",
-		"law:contains", "law:containserr", "law:get", "law:neg", "law:set", "law:nested", "dev:ok", "dev:wild", "dev:error"} {
+		"law:contains", "law:containserr", "law:get", "law:neg", "law:set", "law:nested", "law:pushabsent", "law:inc", "dev:ok", "dev:wild", "dev:error"} {
 		if tags[t] == 0 {
 			infra("C15: vacuity guard: nothing exercised %q (model or alphabet changed?)", t)
 		}
